@@ -11,7 +11,7 @@ import (
 
 func init() {
 	register(&Property{ID: "C17", Run: runC17,
-		Explain: "Gossip bounds as a gate table (operator-exact comparisons against named parameters, edge-cut dominance), the heartbeat schedule as must-pass-through, and promise accounting: B1/B2 IHAVE message and id budgets (return before any effect), B3 per-IHAVE id cap, B4 only unseen ids requested, B5 the ask is truncated to the remaining budget, the budget is charged and the promise is taken from the truncated list, B6 unwanted ids never served, B7 GossipRetransmission cap, B8/B9 IDONTWANT message cap and a running id cap across the whole RPC, B10 stored TTL, B11 per-peer IHAVE truncation to MaxIHaveLength, B12 IDONTWANT only for messages >= threshold, to mesh peers with the feature, never to the sender, B13 gossip ids only from the first HistoryGossip slots, B14 Shift always expires the last slot, shifts, and clears slot 0, B15 HistoryGossip <= HistoryLength validated, B16 the unwanted map is keyed by computeChecksum everywhere; heartbeat calls clearBackoff/clearIHaveCounters/clearIDontWantCounters/applyIwantPenalties/sendGraftPrune/flush/Shift on every path (flush before Shift) and emitGossip for every mesh and fanout topic with the pushed-to peers excluded; messages are cached before recipients are chosen; promises are fulfilled on deliver/validate/reject (except the two signature reasons), voided on throttle, counted broken only when expired, and penalised only by applyIwantPenalties; HandleRPC runs all five control handlers and replies when any part is non-empty. (B17) a dropped IWANT voids the promise recorded for it and every drop reaches the tracers. (B18) a message put into the cache twice keeps one history entry. NOT decided: window arithmetic over heartbeats as counts over histories.",
+		Explain: "Gossip bounds as a gate table (operator-exact comparisons against named parameters, edge-cut dominance), the heartbeat schedule as must-pass-through, and promise accounting: B1/B2 IHAVE message and id budgets (return before any effect), B3 per-IHAVE id cap, B4 only unseen ids requested, B5 the ask is truncated to the remaining budget, the budget is charged and the promise is taken from the truncated list, B6 unwanted ids never served, B7 GossipRetransmission cap, B8/B9 IDONTWANT message cap and a running id cap across the whole RPC, B10 stored TTL, B11 per-peer IHAVE truncation to MaxIHaveLength, B12 IDONTWANT only for messages >= threshold, to mesh peers with the feature, never to the sender, B13 gossip ids only from the first HistoryGossip slots, B14 Shift always expires the last slot, shifts, and clears slot 0, B15 HistoryGossip <= HistoryLength validated, B16 the unwanted map is keyed by computeChecksum everywhere; heartbeat calls clearBackoff/clearIHaveCounters/clearIDontWantCounters/applyIwantPenalties/sendGraftPrune/flush/Shift on every path (flush before Shift) and emitGossip for every mesh and fanout topic with the pushed-to peers excluded; messages are cached before recipients are chosen; promises are fulfilled on deliver/validate/reject (except the two signature reasons), voided on throttle, counted broken only when expired, and penalised only by applyIwantPenalties; HandleRPC runs all five control handlers and replies when any part is non-empty. (B17) a dropped IWANT voids the promise recorded for it and every drop reaches the tracers. (B18) a message put into the cache twice keeps one history entry. (B19) the per-peer transmission counters behind B7 live exactly as long as the cached message: an entry of mc.peertx is deleted only where the same id is deleted from mc.msgs, a fresh counter map is stored only when the lookup found none, the map is replaced only by the constructor and never cleared. NOT decided: window arithmetic over heartbeats as counts over histories.",
 		Assume:  []string{"heartbeat runs once per HeartbeatInterval (timer)", "MessageCache is only used from the event loop"},
 		Mutants: []Mutant{
 			{Name: "drop-reported-after-control-stripped", File: "gossipsub.go", Old: "\tgs.tracer.DropRPC(rpc, p)\n\t// push control messages that need to be retried\n\tctl := rpc.GetControl()\n\tif ctl != nil {\n\t\tgs.pushControl(p, ctl)\n\t}\n}", New: "\t// push control messages that need to be retried\n\tctl := rpc.GetControl()\n\tif ctl != nil {\n\t\tgs.pushControl(p, ctl)\n\t}\n\tgs.tracer.DropRPC(rpc, p)\n}", Expect: "B17"},
@@ -21,6 +21,8 @@ func init() {
 			{Name: "ihave-seen-not-skipped", File: "gossipsub.go", Old: "\t\t\tif gs.p.seenMessage(mid) {\n\t\t\t\tcontinue\n\t\t\t}\n\t\t\tiwant[mid] = struct{}{}", New: "\t\t\tif gs.p.seenMessage(mid) && len(iwant) > 0 {\n\t\t\t\tcontinue\n\t\t\t}\n\t\t\tiwant[mid] = struct{}{}", Expect: "B4"},
 			{Name: "ihave-promise-before-truncate", File: "gossipsub.go", Old: "\tiwantlst = iwantlst[:iask]\n\tgs.iasked[p] += iask\n\n\tgs.gossipTracer.AddPromise(p, iwantlst)\n", New: "\tgs.gossipTracer.AddPromise(p, iwantlst)\n\tiwantlst = iwantlst[:iask]\n\tgs.iasked[p] += iask\n", Expect: "B5"},
 			{Name: "ihave-budget-not-charged", File: "gossipsub.go", Old: "\tiwantlst = iwantlst[:iask]\n\tgs.iasked[p] += iask\n", New: "\tiwantlst = iwantlst[:iask]\n\tgs.iasked[p] = iask\n", Expect: "B5"},
+			{Name: "reput-resets-transmission-counters", File: "mcache.go", Old: "\tmc.msgs[mid] = msg\n\tmc.history[0] = append(", New: "\tmc.msgs[mid] = msg\n\tdelete(mc.peertx, mid)\n\tmc.history[0] = append(", Expect: "B19"},
+			{Name: "getforpeer-fresh-counters-every-time", File: "mcache.go", Old: "\ttx, ok := mc.peertx[mid]\n\tif !ok {\n", New: "\ttx, ok := mc.peertx[mid]\n\tif !ok || len(tx) > 8 {\n", Expect: "B19"},
 			{Name: "cache-put-twice-two-entries", File: "mcache.go", Old: "\tif _, ok := mc.msgs[mid]; ok {\n", New: "\tif _, ok := mc.msgs[mid]; ok && len(mc.history) == 0 {\n", Expect: "B18"},
 			{Name: "dropped-iwant-keeps-promise", File: "gossip_tracer.go", Old: "\t\t\tif promises, ok := gt.promises[mid]; ok {\n\t\t\t\tdelete(promises, p)\n", New: "\t\t\tif promises, ok := gt.promises[mid]; ok && len(promises) > 1 {\n\t\t\t\tdelete(gt.peerPromises[p], mid)\n", Expect: "B17"},
 			{Name: "drop-not-traced", File: "gossipsub.go", Old: "func (gs *GossipSubRouter) doDropRPC(rpc *RPC, p peer.ID, reason string) {\n", New: "func (gs *GossipSubRouter) doDropRPC(rpc *RPC, p peer.ID, reason string) {\n\tif len(rpc.GetPublish()) == 0 && rpc.GetControl().GetIwant() != nil {\n\t\treturn\n\t}\n", Expect: "B17"},
@@ -1083,6 +1085,7 @@ func runC17(c *RuleCtx) {
 	}
 	checkDroppedIWantVoidsPromise(c)
 	checkCacheSingleEntry(c)
+	checkTransmissionCountersLifetime(c)
 	c.Min["B1"] = 5
 	c.Min["B2"] = 4
 	c.Min["B3"] = 1
@@ -1438,4 +1441,94 @@ func checkCacheSingleEntry(c *RuleCtx) {
 	}
 	c.Check(ok, "B18", f.Name, "one history entry per cached id", appendStmt, why, "a message that is put while it is already cached does not end up with exactly one history entry in the newest slot (a second entry next to the old one, or no new entry at all): Shift deletes it when the older entry expires, fewer than HistoryLength heartbeats after it was last forwarded: "+why)
 	c.Min["B18"] = 1
+}
+
+// B19: "a peer is served the same message at most GossipRetransmission times" is decided at the serving site
+// (B7) against the per-peer transmission counters kept in mc.peertx. The clause holds across the whole life of
+// a cached message only if those counters live exactly as long as the message does: an inventory of every site
+// that discards counters (delete of a peertx entry, clear of the map, replacement of the whole map outside the
+// constructor, overwriting an existing entry with a fresh map). A delete is accepted only where the message
+// itself leaves the cache — the same key is deleted from mc.msgs on every path through the delete (before or
+// after it); a fresh map is stored only on the edge where the lookup found none. Re-putting a cached id
+// (B18's branch) replaces the message under the same id and is not such a site.
+func checkTransmissionCountersLifetime(c *RuleCtx) {
+	p := c.P
+	n := 0
+	for _, s := range p.StoresTo("MessageCache.peertx") {
+		f := s.Fn
+		root := f.Root().Name
+		g := p.Graph(f)
+		switch s.Kind {
+		case "delete":
+			n++
+			key := ""
+			if s.Key != nil {
+				key = p.R(f).Val(s.Key).String()
+			}
+			sameKeyMsgDelete := func(x ast.Node) bool {
+				ok := false
+				inspectNoLit(x, func(y ast.Node) bool {
+					if ce, isC := y.(*ast.CallExpr); isC && p.CalleeName(f.Info(), ce) == "builtin.delete" && len(ce.Args) == 2 &&
+						p.R(f).Val(ce.Args[0]).IsField("MessageCache.msgs") && p.R(f).Val(ce.Args[1]).String() == key {
+						ok = true
+					}
+					return true
+				})
+				return ok
+			}
+			pt, located := g.Locate(s.Node)
+			if !located {
+				c.Undecided("B19", root, "counters dropped only with the message", s.Node, "delete site not located in the CFG")
+				continue
+			}
+			before := g.DominatedByNode(pt, sameKeyMsgDelete)
+			after := false
+			if !before {
+				// the statement itself may hold both deletes; otherwise every continuation up to the end of the
+				// enclosing loop iteration / function passes the message delete
+				if sameKeyMsgDelete(s.Node) {
+					after = true
+				} else {
+					until := map[*cfgBlock]bool{}
+					if loops := p.EnclosingLoops(s.Node); len(loops) > 0 {
+						head, _, done := g.LoopBlocks(loops[0])
+						if head != nil {
+							until[head] = true
+						}
+						if done != nil {
+							until[done] = true
+						}
+					}
+					after, _ = g.MustPass(pt, PassOpts{Until: until}, sameKeyMsgDelete)
+				}
+			}
+			c.Check(before || after, "B19", root, "transmission counters dropped only together with the message", s.Node,
+				"the same key is deleted from mc.msgs on every path through this delete",
+				"the per-peer transmission counters of "+key+" are discarded while the message stays cached: a peer that already pulled it GossipRetransmission times is served again")
+		case "assign":
+			// whole-map replacement: constructor only
+			n++
+			c.Check(strings.HasPrefix(root, "NewMessageCache"), "B19", root, "counter map replaced only by the constructor", s.Node, "constructor",
+				"mc.peertx is replaced outside the constructor: every cached message's transmission counters are forgotten")
+		case "elem-assign":
+			n++
+			absent := AtomLookupOK("counters of the id present", isFieldOf("MessageCache.peertx"), nil)
+			ok, why := p.DomAtom(f, s.Node, absent, false)
+			c.Check(ok, "B19", root, "fresh counter map stored only when none exists", s.Node, why,
+				"an existing per-peer transmission map can be overwritten: "+why)
+		}
+	}
+	// clear(mc.peertx) anywhere
+	for _, f := range p.All {
+		inspectNoLit(f.Body, func(x ast.Node) bool {
+			if ce, isC := x.(*ast.CallExpr); isC && p.CalleeName(f.Info(), ce) == "builtin.clear" && len(ce.Args) == 1 && p.R(f).Val(ce.Args[0]).IsField("MessageCache.peertx") {
+				c.Bad("B19", f.Root().Name, "counter map cleared", ce, "clear(mc.peertx) forgets every cached message's transmission counters")
+			}
+			return true
+		})
+	}
+	if n < 2 {
+		c.Undecided("B19", "MessageCache.peertx", "write sites", nil, "fewer write sites of the transmission counters than known ("+itoa(n)+" < 2: GetForPeer, Shift; the constructor uses a composite literal)")
+	}
+	c.Min["B19"] = 2
 }
